@@ -388,7 +388,7 @@ package trace
 // Unregister: a processor that is not registered changes nothing; otherwise exactly its (last) entry is removed and the
 // others keep their order; the old list object is not written (copy-on-write)
 //@ func (p *TracerProvider) UnregisterSpanProcessor(sp SpanProcessor)
-//@   prop C15
+//@   prop C15 C10
 //@   acquires p.mu
 //@   unchecked frame a new list is published through an atomic pointer; sync.Once state of the removed entry
 //@   requires p != nil && sp != nil && p.spanProcessors.v != 0 && (forall i in 0 .. len(procs(p)) : procs(p)[i] != nil)
@@ -402,7 +402,7 @@ package trace
 
 // Register: new list = old list followed by a fresh state for sp
 //@ func (p *TracerProvider) RegisterSpanProcessor(sp SpanProcessor)
-//@   prop C15
+//@   prop C15 C10
 //@   acquires p.mu
 //@   unchecked frame a new list is published through an atomic pointer
 //@   requires p != nil && p.spanProcessors.v != 0
@@ -572,3 +572,37 @@ package trace
 //@   ghost@entry : bspOnce = 0
 //@   ghost@call Once.Do#* : bspOnce = bspOnce + 1
 //@   assert@return#* : bspOnce == 1
+
+// ======================================================================== C20 sampler from the environment (sampler_env.go)
+// OTEL_TRACES_SAMPLER selects the sampler (after trimming and lower-casing), OTEL_TRACES_SAMPLER_ARG the ratio; an unset sampler
+// variable means "no sampler, no error" (the default or an option applies); every name maps to its own sampler; an unknown name is an
+// error and yields no sampler; a missing ratio argument means 1.0; an unparsable, negative or > 1 ratio is reported and replaced by 1.0
+//@ func samplerFromEnv() (s Sampler, err error)
+//@   prop C20
+//@   overflow assumed
+//@   unchecked frame,no-panic environment, sampler constructors
+//@   assert@call LookupEnv#1 : $arg0 == "OTEL_TRACES_SAMPLER"
+//@   assert@call LookupEnv#2 : $arg0 == "OTEL_TRACES_SAMPLER_ARG"
+//@   assert@return#1 : !ok && $ret0 == nil && $ret1 == nil
+//@   assert@call AlwaysSample#1 : ok && sampler == "always_on"
+//@   assert@call NeverSample#1 : ok && sampler == "always_off"
+//@   assert@call TraceIDRatioBased#1 : ok && sampler == "traceidratio" && !hasSamplerArg && $arg0 === 1.0
+//@   assert@call parseTraceIDRatio#1 : ok && sampler == "traceidratio" && hasSamplerArg && $arg0 == samplerArg
+//@   assert@call AlwaysSample#2 : ok && sampler == "parentbased_always_on"
+//@   assert@call NeverSample#2 : ok && sampler == "parentbased_always_off"
+//@   assert@call TraceIDRatioBased#2 : ok && sampler == "parentbased_traceidratio" && !hasSamplerArg && $arg0 === 1.0
+//@   assert@call parseTraceIDRatio#2 : ok && sampler == "parentbased_traceidratio" && hasSamplerArg && $arg0 == samplerArg
+//@   assert@return#10 : $ret0 == nil && $ret1 != nil
+//@ func parseTraceIDRatio(arg string) (s Sampler, err error)
+//@   prop C20
+//@   overflow assumed
+//@   unchecked frame,no-panic strconv.ParseFloat and the sampler constructor
+//@   assert@call ParseFloat#1 : $arg0 == arg && $arg1 == 64
+//@   assert@call TraceIDRatioBased#1 : $arg0 === 1.0
+//@   assert@call TraceIDRatioBased#2 : $arg0 === 1.0 && v < 0.0
+//@   assert@call TraceIDRatioBased#3 : $arg0 === 1.0 && v > 1.0
+//@   assert@call TraceIDRatioBased#4 : $arg0 === v && !(v < 0.0) && !(v > 1.0)
+//@   assert@return#1 : $ret1 != nil
+//@   assert@return#2 : $ret1 != nil
+//@   assert@return#3 : $ret1 != nil
+//@   assert@return#4 : $ret1 == nil
